@@ -338,6 +338,33 @@ def wait_threads(filtered, nframes, prior):
              "C16/threads/log")
 
 
+def wait_late_match():
+    """wait(code, timeout=T): a non-matching frame arrives in time, the matching one only after T has passed (but
+    before a wait that was re-armed at the non-matching frame would expire): the caller is handed nothing"""
+    cons = emcy().EmcyConsumer()
+    want = sx.fresh_int("want", 0, 0xFFFF)
+    f1, f2 = _frame("f1"), _frame("f2")
+    c1, _, _ = _fields(f1)
+    c2, _, _ = _fields(f2)
+    sx.assume(c1 != want)
+    sx.assume(c2 == want)
+    T = 1.5
+    plan = [(0.6, f1), (1.2, f2)]       # arrival: +0.6 s and +1.8 s
+
+    def hook(kind, obj):
+        if kind != "condition" or not plan:
+            return
+        dt, f = plan.pop(0)
+        sx.env().advance(dt)
+        cons.on_emcy(0x81, f, sx.env().now)
+    sx.env().delivery_hook = hook
+    res = cons.wait(want, timeout=T)
+    sx.observe("res", None if res is None else res.code)
+    sx.prove(res is None, "an entry that arrived after the time-out was handed out", "C16/wait/late-match")
+    sx.prove(len(cons.log) == 2, "both frames logged", "C16/wait/late-log")
+    sx.reach("wait-late")
+
+
 def two_waiters(filtered):
     """Two threads wait on the same consumer while a third delivers one frame (every schedule at lock
     granularity): every waiter that was parked in wait() when the frame arrived, and whose filter matches, gets
@@ -422,6 +449,7 @@ def jobs(tier):
     for filtered in (False, True):
         out.append(dict(func="two_waiters", params=dict(filtered=filtered), weight=50))
     out.append(dict(func="repeated_producer", params={}))
+    out.append(dict(func="wait_late_match", params={}))
     for nlog in range(0, 3):
         for nact in range(0, nlog + 1):
             out.append(dict(func="step", params=dict(nlog=nlog, nact=nact)))
@@ -463,7 +491,7 @@ META = dict(
                     "log entry)", "OS-thread interleavings", "data longer than 5 bytes"],
     assumptions=["fake clock: a wake-up without delivery advances time by the time-out"],
     stubs=["struct", "threading.Condition", "time", "bytes"],
-    required_reach=["step", "reset-cleared", "history", "history-reset", "long-step", "reentrant", "two-waiters", "two-waiters-parked", "producer-history", "producer", "producer-reset", "desc", "wait-timeout",
+    required_reach=["step", "reset-cleared", "history", "history-reset", "long-step", "reentrant", "two-waiters", "two-waiters-parked", "producer-history", "wait-late", "producer", "producer-reset", "desc", "wait-timeout",
                     "wait-hit", "threads-entry", "threads-none"],
     limits=dict(quick=dict(), thorough=dict(crosscheck_every=2, crosscheck_max=40)),
 )
